@@ -27,6 +27,10 @@ def oil_params(draw, min_pb=50.0):
     lo = max(20.0, gor_min)
     gor = draw(st.one_of(st.sampled_from([650.0, 2500.0]), loguniform(lo, 2500.0)))
     gor = max(gor, lo)
+    if draw(st.integers(0, 3)) == 0:
+        # parameters given as Python ints, as in the library's docstrings (Fluid(200, 35, 0.8, 650)): the dtype of a
+        # parameter must not change the result
+        T, api, gor = int(round(T)), int(round(api)), int(math.ceil(gor))
     return {"T": T, "api": api, "sg": sg, "gor": gor}
 
 
